@@ -20,7 +20,7 @@ RULE = ("square non-negative integer matrices, zero diagonal, a positive "
         "lb <= len <= ub. non-trivial = distinct (matrix, tour) with n >= 3 "
         "and a non-constant matrix")
 LEVEL_ASSUMPTIONS = ["oracle: sum of original Python ints along the cycle"]
-REQUIRED = {"concurrent_tour_lengths": 2000, "suite_runs": 1, "contract_tour_length_evaluated": 20, "tour_evaluations": 3000, "asymmetric_instances": 100,
+REQUIRED = {"concurrent_tour_lengths": 2000, "suite_runs": 1, "contract_tour_length_evaluated": 5, "tour_evaluations": 3000, "asymmetric_instances": 100,
             "corner_asymmetric": 20, "dtype_boundary_instances": 50,
             "bound_attained_lower": 20, "bound_attained_upper": 20,
             "instances_all_perms": 20, "multiplier_instances": 30,
@@ -337,6 +337,11 @@ def one_instance(ctx, m, tag, mult, in_dtype, all_perms, layout=None):
         v = obj.evaluate(x)
         want = sum(m[t[k - 1]][t[k]] for k in range(n))
         case = dict(case0, kind="tour", tour=t)
+        if t is tours[0] and STALE[0] % 4 == 1:
+            from vlib.clones import judge_clones
+            judge_clones(ctx, obj, lambda o: (o.evaluate(x), o.lower_bound(),
+                                              o.upper_bound()),
+                         (want, lb, ub), "tour-length", case)
         if v != want or isinstance(v, bool):
             ctx.violation("tour-length-differs",
                           f"TourLength = {v!r}, cyclic edge sum = {want} "
